@@ -16,6 +16,7 @@ Expected(e) ==
     [] e.cmd = "modeGet"  -> ModeGet(e.before)
     [] e.cmd = "modeSet"  -> ModeSet(e.before, e.arg)
     [] e.cmd = "rpmGet"   -> RpmGet(e.before)
+    [] e.cmd = "sensorGet" -> SensorGet(e.before)
 G_CliConforms == Has /\ Cur.ev = "Cli" =>
   LET x == Expected(Cur) IN
   /\ Cur.after = x.regs
